@@ -467,7 +467,11 @@ func (s *Server) setReturnNodes(r *krpc.Return, queryMsg krpc.Msg, querySource A
 	if queryMsg.A == nil {
 		return &krpcErrMissingArguments
 	}
+	// find_node and get name what they're looking for in "target", get_peers in "info_hash".
 	target := int160.FromByteArray(queryMsg.A.InfoHash)
+	if queryMsg.Q == "find_node" || queryMsg.Q == "get" {
+		target = int160.FromByteArray(queryMsg.A.Target)
+	}
 	if shouldReturnNodes(queryMsg.A.Want, querySource.IP()) {
 		r.Nodes = s.makeReturnNodes(target, func(na krpc.NodeAddr) bool { return na.IP.To4() != nil })
 	}
